@@ -147,6 +147,9 @@ class Report:
     def finish(self, tier_, *, rule, exhaustive=False, extra=None):
         os.makedirs(EVID, exist_ok=True)
         os.makedirs(REPLAYS, exist_ok=True)
+        for fn in os.listdir(REPLAYS):
+            if fn.startswith(self.prop + "_"):
+                os.remove(os.path.join(REPLAYS, fn))
         self.cov["distinct_nontrivial"] = len(self.distinct)
         self.cov["rule"] = rule
         self.cov["exhaustive"] = exhaustive
